@@ -673,6 +673,22 @@ impl Hist {
             return false;
         }
         self.fee_boundary();
+        if self.report_c03 && can_sh > 0 {
+            // the block recorded at a stable height never changes: read the last few stable heights
+            // back through the API and compare with the append-only stable chain of the model
+            let lo = can_sh.saturating_sub(3);
+            if let Out::Ok(Ok(r)) = world::get_block_headers(lo, Some(can_sh - 1), self.cfg.net) {
+                let want: Vec<Vec<u8>> = (lo..can_sh).map(|x| self.model.blocks[&self.model.stable_chain[x as usize]].header.clone()).collect();
+                ctx.cov.count("c03_stable_heights_read_back");
+                if r.block_headers != want {
+                    ctx.violation(
+                        format!("the headers recorded at stable heights {}..{} are not those of the blocks that were stabilised", lo, can_sh - 1),
+                        None,
+                        json!({"log": self.log}),
+                    );
+                }
+            }
+        }
         if self.report_c03 {
             let fpv = crate::rng::fp_str(&format!(
                 "{:?}|{}|{}|{}",
